@@ -452,6 +452,14 @@ func usable(cur string, exclude []string) bool {
 			if _, ok := realRel(cur, e); !ok {
 				return false
 			}
+			// the filepath.Join fall-back (an `@` form that does not parse as it stands, e.g. @s//a//b) is compared with the
+			// model through parseMaybeRelativeBuildLabel directly (CRel); it is kept out of SetIncludeAndExclude so that a
+			// change of the parser called there ends in a reported failing input, not in log.Fatalf killing the harness
+			if !strings.HasPrefix(e, ":") {
+				if _, err := core.TryParseBuildLabel(e, "", ""); err != nil {
+					return false
+				}
+			}
 		}
 	}
 	return true
